@@ -80,10 +80,12 @@ def curated():
     return out
 
 
-def run_one(rec, G, tag, alphabet, maxlen, bytes_mode=False, shiftable=True):
+def run_one(rec, G, tag, alphabet, maxlen, bytes_mode=False, shiftable=True, named=False):
     if not gen.well_formed(G):
         rec.drop()
         return
+    if named:
+        G = dict(G, name=diff.unique_name('vt_c08'))
     b = diff.build(rec, G)
     if b is None:
         return
@@ -179,7 +181,7 @@ def run_shard(rec):
                 rec.drop()
                 continue
             alpha, bm = 'ab1(', False
-        run_one(rec, G, ('random', kind), alpha, 3 if quick else 4, bm)
+        run_one(rec, G, ('random', kind), alpha, 3 if quick else 4, bm, named=(i % 5 == 4))
 
 
 def replay(rec, rep):
